@@ -47,6 +47,7 @@ def gen_y(rng, style, special=0.15):
     if style == 'float': return one()
     if style == 'int': return rng.randint(-5, 50)
     if style == 'npfloat': return np.float64(one())
+    if style == 'np0d': return np.array(one())            # a 0-d array: what Powell hands its monitors as the cost
     if style == 'list': return [one() for _ in range(3)]
     if style == 'tuple': return tuple(one() for _ in range(2))
     if style == 'array': return np.array([one() for _ in range(3)])
@@ -80,7 +81,7 @@ def run_ops(rng, obs):
     mons = [Monitor(k=k) if k is not None or rng.random() < 0.5 else Monitor() for k in ks]
     models = [Model(k) for k in ks]
     dim = rng.randint(1, 4)
-    ystyle = rng.choice(['float', 'float', 'int', 'npfloat', 'list', 'array', 'mixed'])
+    ystyle = rng.choice(['float', 'float', 'int', 'npfloat', 'np0d', 'list', 'array', 'mixed'])
     ops = []
     combined_diff_k = False
     for _ in range(rng.randint(5, 22)):
@@ -88,7 +89,7 @@ def run_ops(rng, obs):
         r = rng.random()
         if r < 0.5:
             x = gen_x(rng, dim, rng.choice(['list', 'tuple', 'array', 'ints']))
-            ys = ystyle if ystyle != 'mixed' else rng.choice(['float', 'int', 'npfloat'])
+            ys = ystyle if ystyle != 'mixed' else rng.choice(['float', 'int', 'npfloat', 'np0d'])
             y = gen_y(rng, ys)
             i = rng.choice([None, None, rng.randint(0, 9)])
             ops.append(['call', a, plain(x), plain(y), i])
